@@ -41,3 +41,22 @@ def extra(binary, build, tier, rng):
         for (n, k) in ((3, 1), (4, 2), (6, 3), (7, 2)) if tier == "quick" else ((2, 1), (3, 1), (3, 2), (4, 2), (5, 2), (6, 3), (7, 2), (8, 4), (9, 1), (10, 3)):
             specs.append(("multi", n, k, samples_for("multi", n, k, tier), rng.u64(), h, rng.choice(["xoshiro", "splitmix", "wyrand", "chacha8"])))
     yield from run_stat(binary, specs, "frequency-test-samples", build)
+    # exact preimage counts of the replacement draw (and of the draw after a rejected word), by interval search over all 2^64 words:
+    # n items into k = n-1 slots - the last item replaces slot j or none, j uniform in 0..n-1
+    from .preimage_oracle import first_draw_counts
+    from .oracles import parse_ok
+    ps = []
+    for n in (3, 5, 6):
+        items = ",".join(map(str, range(n)))
+        buf = ",".join(["77"] * (n - 1))
+        def which(res, n=n):
+            f = parse_ok(res)
+            if f is None or len(f) < 2:
+                return None
+            got = f[1].split(",")
+            j = [i for i, x in enumerate(got) if x == str(n - 1)]
+            return j[0] if j else n - 1
+        ps.append(("multiple(%d items, %d slots): slot taken by the last item" % (n, n - 1), n, 64,
+                   (lambda w, items=items, buf=buf: "multi items=%s buf=%s words=%d" % (items, buf, w)), which,
+                   (lambda w1, w2, items=items, buf=buf: "multi items=%s buf=%s words=%d,%d" % (items, buf, w1, w2))))
+    yield from first_draw_counts(binary, build, rng, ps, "preimage-interval-probes")
